@@ -1,2 +1,2 @@
-import sys; sys.path.insert(0,'/tmp/fixes'); from edit import rep
+import sys; sys.path.insert(0,'/verif/tools'); from edit import rep
 rep('segno/writers.py', "    if rgba[3] in (1.0, 255):\n", "    if rgba[3] == (1.0 if alpha_float else 255):\n")
